@@ -105,6 +105,7 @@ func runC15(a Args) Result {
 				target = anchoredBefore + a.Steps/3
 			}
 			for anchored < target {
+				attestedWith := map[string]bool{}
 				fam := irimon.Family(rng)
 				families++
 				valid := irimon.OnlyValid(fam)
@@ -115,7 +116,7 @@ func runC15(a Args) Result {
 						continue
 					}
 					// every fourth valid sibling is left un-anchored: a query for it must find nothing
-					if i > 0 && rng.Intn(4) == 0 {
+					if i > 0 && rng.Intn(4) == 0 && !attestedWith[fmt.Sprint(irimon.Describe(h))] {
 						if _, dup := byIRI[iri]; !dup {
 							skipped = append(skipped, h)
 						}
@@ -123,16 +124,33 @@ func runC15(a Args) Result {
 					}
 					via := "anchor"
 					var msg sdk.Msg = &data.MsgAnchor{Sender: sender, ContentHash: h}
+					carried := attestedWith[fmt.Sprint(irimon.Describe(h))]
 					switch x := rng.Intn(10); {
+					case carried:
 					case x < 3 && resolverID != 0:
 						via = "register"
 						msg = &data.MsgRegisterResolver{Signer: sender, ResolverId: resolverID, ContentHashes: []*data.ContentHash{h}}
 					case x < 5 && h.Graph != nil:
 						via = "attest"
-						msg = &data.MsgAttest{Attestor: sender, ContentHashes: []*data.ContentHash_Graph{h.Graph}}
+						// ONE message attesting this hash together with the other valid graph siblings of the
+						// family that come later (same digest bytes, other algorithms): each entry is its own data
+						gs := []*data.ContentHash_Graph{h.Graph}
+						for _, o := range valid[i+1:] {
+							if o.Graph != nil && len(gs) < 4 && rng.Intn(2) == 0 {
+								gs = append(gs, o.Graph)
+								attestedWith[fmt.Sprint(irimon.Describe(o))] = true
+							}
+						}
+						msg = &data.MsgAttest{Attestor: sender, ContentHashes: gs}
 					}
-					r := e.Exec(eng.Tx{Msgs: []sdk.Msg{msg}, Tag: via + "-sibling"})
-					if r == nil || !r.OK {
+					if carried {
+						via, msg = "attest", nil // already carried by an earlier multi-entry attestation
+					}
+					var r *eng.TxRec
+					if msg != nil {
+						r = e.Exec(eng.Tx{Msgs: []sdk.Msg{msg}, Tag: via + "-sibling"})
+					}
+					if msg != nil && (r == nil || !r.OK) {
 						e.Violate("C15", "valid-hash-not-anchored", fmt.Sprintf("a content hash that passes Validate could not be anchored: %v", irimon.Describe(h)))
 						continue
 					}
